@@ -167,15 +167,18 @@ Definition spec_segs (m : mode) (i : input) : list (Z * list Z) :=
 
 Definition prop_code (i : input) (obs : list Z) : Z := check_segs (spec_segs ideal i) obs.
 
-(* Which known departure (if any) explains a failing observable exactly:
+(* Which known departure (if any) explains a failing observable: a non-zero signature is returned
+   ONLY IF the WHOLE observable equals the faithful model's observable (so nothing else can hide
+   behind a recorded shape); the number then says which departure(s) that model output shows:
    1 = always-marshalled scalar reset by a layer that omits it; 2 = list merged element-wise;
-   3 = both. 0 = none of them: the observable is not what ANY of these semantics gives. *)
+   3 = both. 0 = the observable is fine, or it is not what the faithful model gives. *)
 Definition finding_code (i : input) (obs : list Z) : Z :=
+  let f := enc_obs (spec_run faithful i) in
   if eq_listZ obs (enc_obs (spec_run ideal i)) then 0
-  else if eq_listZ obs (enc_obs (spec_run (mkMode true false) i)) then 1
-  else if eq_listZ obs (enc_obs (spec_run (mkMode false true) i)) then 2
-  else if eq_listZ obs (enc_obs (spec_run faithful i)) then 3
-  else 0.
+  else if negb (eq_listZ obs f) then 0
+  else if eq_listZ f (enc_obs (spec_run (mkMode true false) i)) then 1
+  else if eq_listZ f (enc_obs (spec_run (mkMode false true) i)) then 2
+  else 3.
 
 (* ---------- inputs on which the two known departures cannot show ---------- *)
 (* every always-marshalled scalar of a present struct is given in the text *)
